@@ -319,7 +319,8 @@ PROPS = {
     "C16": {
         "module": "MiniMcmcVerif.Props.C16Measure",
         "obligations": [CAT + n for n in ["exists_region", "preimage_eq", "sample_probability", "sample_in_range", "sample_pos_prob", "scan_pos", "normalize_sum_one", "normalize_nonneg",
-                                          "scan_region", "sample_region", "region_length", "lastPos_pos", "lastPos_none"]],
+                                          "scan_region", "sample_region", "region_length", "lastPos_pos", "lastPos_none",
+                                          "normalize_getElem", "normalize_zero_iff", "normalize_scale"]],
         "level_extra": "As a statement about Lebesgue measure (sample_probability): for non-negative probabilities summing to one the set of variates r in [0,1) that the scan maps to category j has measure exactly p_j.",
         "level_text": "Theorems: for EVERY variate r that is not below 0 (0 and 1-ulp included) and every weight list whose entries are 0 or positive with one positive, "
                       "the scan model returns an in-range index of positive probability — proved over an arbitrary carrier using only 'r < x+0 -> r < x', so it holds for IEEE floats "
